@@ -102,6 +102,13 @@ def run(ctx):
                    "rangeforms", "errtok", "valtable", "codepoints", "mux", "random-bytes", "random-cps"):
         if summ["hist"].get(stream, 0) <= 0:
             ctx.violation("c09-harness-stream-missing", "the generator stream %s produced no input" % stream, {"hist": summ["hist"]}, found_input=False)
+    # the importer-level streams are written to reach the importer: nearly all of their inputs must get past dbc.Parse
+    # (a generator slip - a message named like a multiplexer indicator - once turned a whole stream into syntax errors)
+    for stream, share in (("valtable", 0.95), ("impchecks", 0.95), ("dupnames", 0.9), ("wellknown", 0.9), ("mux", 0.9), ("valid", 0.95)):
+        n, okn = summ["hist"].get(stream, 0), summ.get("parsedof", {}).get(stream, 0)
+        if n > 0 and okn < share * n:
+            ctx.violation("c09-harness-stream-not-parseable", "stream %s: only %d of %d inputs are accepted by dbc.Parse (%.0f%% expected): "
+                          "the stream no longer reaches the importer" % (stream, okn, n, 100 * share), {"parsedof": summ.get("parsedof")}, found_input=False)
     if mism != 0:
         for what, lines in sorted(by_kind.items()):
             both_syn = [l for l in lines if re.search(r"go \[syn \d+ \d+\] model \[syn \d+ \d+\]", l)]
